@@ -337,6 +337,13 @@ def main():
         script.append({"op": "instantiate", "binds": {"mem": 1 if memk == "imported" else 0, "table": 0, "globals": []}})
         script += [{"op": "call", "inst": 1, "export": "peek", "args": [arg("i32", a_)]} for a_ in (9, 10, 19, 41, 65533)]
         items.append({"id": "layers_" + memk, "module": m, "script": script})
+    # a table and a memory of size zero (declared, empty): instantiated in storage that is not zeroed, released, instantiated again
+    for j_, (tmin, mmin) in enumerate(((0, 0), (0, 1), (1, 0))):
+        m0 = {"types": [{"p": [], "r": ["i32"]}], "imports": [], "funcs": [{"type": 0, "locals": [], "body": [["memory.size"], ["end"]]}],
+              "table": {"min": tmin, "max": tmin}, "memory": {"min": mmin, "max": 1}, "exports": [{"name": "size", "kind": "func", "idx": 0}, {"name": "memory", "kind": "memory", "idx": 0}]}
+        inst_ = {"op": "instantiate", "binds": {"mem": 0, "table": 0, "globals": []}}
+        call_ = {"op": "call", "inst": 1, "export": "size", "args": []}
+        items.append({"id": "zero%d" % j_, "module": m0, "script": [inst_, call_, {"op": "free", "inst": 1}, dict(inst_, reuse=1), dict(call_, inst=2)]})
     builds = [{"name": "gcc-O1", "cc": "gcc", "cflags": ("-O1",)},
               {"name": "gcc-O1-gnu-ld", "cc": "gcc", "cflags": ("-O1",), "w2c2_opts": ("-m", "-d", "gnu-ld")},
               # a C library that is as unhelpful as the standard allows (see machine.HOSTILE_LIBC)
